@@ -152,6 +152,14 @@ class VM:
         # A nested interpreter (eval / Function) inherits the outer deadline
         if self.start_time is None:
             self.start_time = time.monotonic()
+        elif (
+            self.time_limit
+            and time.monotonic() - self.start_time > self.time_limit
+        ):
+            # Each nested interpreter counts its instructions from zero, so
+            # many short nested runs would never reach a poll of their own:
+            # entering one is a poll point
+            raise TimeLimitError("Execution timeout")
 
         # Create initial call frame
         frame = CallFrame(
